@@ -2,17 +2,115 @@
 callback writes the table row of its operator), C08 (scoping; the parser's own helpers
 rebuild MINUS / EQUALS / IFF / DIV nodes from their children - clauses `C09:` in
 contracts/c08_parser.py) and C04/C06 (a constructor applied to the same children returns
-the same object).  The composition - the token stream between printer and parser, the
-term reader's stack machine, the operator table, the script layer and the human-readable
-printer / Pratt parser - is outside pyvc's reach and is covered by the bounded stand-in
-`roundtrip` (labelled bounded, never counted as proved)."""
+the same object).
+
+Here: the *per-operator round-trip lemma* as a static obligation over three tables read from
+the real sources every run -
+    P(op)   the spelling the tree printer and the DAG printer pass to walk_nary for `op`
+            (AST of pysmt/smtlib/printers.py)
+    T(name) the constructor / helper the parser binds to a spelling (AST of SmtLibParser.__init__)
+    K(ctor) the operator a constructor builds: the node mk(op, children) itself (C06 CORE
+            constructors, proved: clause C04:node-has-given-structure; n-ary And / Or / Plus /
+            Times / StrConcat / BVAnd.. build the n-ary node for >= 2 arguments)
+  obligation for every operator printed through walk_nary:  K(T(P(op))) = op , for both printers.
+With C07 (the printer writes exactly `(P(op) child ...)`) and C04 (same content = same
+object) this gives: parsing the printed application of `op` to children that parse back to
+themselves returns the very same node.
+
+The composition over whole formulas - the token stream between printer and parser, the term
+reader's stack machine, the script layer and the human-readable printer / Pratt parser - is
+covered by the bounded stand-in `roundtrip` (labelled bounded, never counted as proved)."""
+import ast
+
+import z3
+
+from pyvc import sorts as S
+from pyvc.symex import Builtin
+from pyvc.harness import Variant
 
 DEADLINE = {"quick": 200, "thorough": 600}
 REPLAY_KIND = "roundtrip"
 
+# constructor / parser helper -> operator of the node it builds from its children
+BUILDS = {
+    "And": S.AND, "Or": S.OR, "Not": S.NOT, "Implies": S.IMPLIES, "Ite": S.ITE, "Plus": S.PLUS, "Times": S.TIMES,
+    "LE": S.LE, "LT": S.LT, "ToReal": S.TOREAL, "Pow": S.POW,
+    "_minus_or_uminus": S.MINUS, "_equals_or_iff": (S.EQUALS, S.IFF), "_division": S.DIV, "_int_division": S.DIV,
+    "BVConcat": S.BV_CONCAT, "BVNot": S.BV_NOT, "BVNeg": S.BV_NEG, "BVAnd": S.BV_AND, "BVOr": S.BV_OR, "BVXor": S.BV_XOR,
+    "BVAdd": S.BV_ADD, "BVSub": S.BV_SUB, "BVMul": S.BV_MUL, "BVUDiv": S.BV_UDIV, "BVURem": S.BV_UREM, "BVSDiv": S.BV_SDIV,
+    "BVSRem": S.BV_SREM, "BVLShl": S.BV_LSHL, "BVLShr": S.BV_LSHR, "BVAShr": S.BV_ASHR, "BVULT": S.BV_ULT, "BVULE": S.BV_ULE,
+    "BVSLT": S.BV_SLT, "BVSLE": S.BV_SLE, "BVComp": S.BV_COMP, "BVToNatural": S.BV_TONATURAL,
+    "Select": S.ARRAY_SELECT, "Store": S.ARRAY_STORE,
+    "StrLength": S.STR_LENGTH, "StrConcat": S.STR_CONCAT, "StrCharAt": S.STR_CHARAT, "StrContains": S.STR_CONTAINS,
+    "StrIndexOf": S.STR_INDEXOF, "StrReplace": S.STR_REPLACE, "StrSubstr": S.STR_SUBSTR, "StrPrefixOf": S.STR_PREFIXOF,
+    "StrSuffixOf": S.STR_SUFFIXOF, "StrToInt": S.STR_TO_INT, "IntToStr": S.INT_TO_STR,
+}
+OPS_BY_WALK = {"walk_" + n.lower(): k for k, n in (enumerate(S.OPNAMES) if isinstance(S.OPNAMES, (list, tuple)) else S.OPNAMES.items())}
+
+
+def printed_spellings(repo, cls):
+    """-> {operator: set of spellings} from methods of the form  def walk_X(...): return self.walk_nary(formula, [args,] "name")
+    (both branches of an if are collected: walk_div)"""
+    mi, ci = repo.find_class(cls)
+    out = {}
+    for name, fi in ci["methods"].items():
+        if name not in OPS_BY_WALK:
+            continue
+        names = set()
+        for n in ast.walk(fi.node):
+            if isinstance(n, ast.Call) and isinstance(n.func, ast.Attribute) and n.func.attr == "walk_nary" and n.args:
+                last = n.args[-1]
+                if isinstance(last, ast.Constant) and isinstance(last.value, str):
+                    names.add(last.value.strip())
+        if names:
+            out[OPS_BY_WALK[name]] = names
+    return out
+
+
+class OperatorRoundTripVariant(Variant):
+    prop_ids = ("C09",)
+    qualname = "pysmt.smtlib.parser.parser.SmtLibParser.__init__"
+    name = "static:operator-round-trip"
+
+    def __init__(self, world):
+        self.world = world
+
+    def setup(self, ex):
+        from contracts.c08_parser import read_operator_table
+        repo = self.world.repo
+        self.table = read_operator_table(repo)
+        self.printed = {"tree": printed_spellings(repo, "pysmt.smtlib.printers.SmtPrinter"),
+                        "dag": printed_spellings(repo, "pysmt.smtlib.printers.SmtDagPrinter")}
+        return Builtin("static-scan", lambda exx, a, kw: None), [], {}
+
+    def check(self, ex, outcome):
+        goals = []
+        for pr, spell in self.printed.items():
+            goals.append(("%s-printer-table-found" % pr, z3.BoolVal(len(spell) > 35)))
+            for Kop, names in sorted(spell.items()):
+                for nm in sorted(names):
+                    ctor = self.table.get(nm)
+                    built = BUILDS.get(ctor)
+                    ok = built is not None and (Kop in built if isinstance(built, tuple) else built == Kop)
+                    goals.append(("C09:%s:%s-printed-as-%s-parses-back-to-%s" % (pr, S.OPNAMES[Kop], nm, S.OPNAMES[Kop]), z3.BoolVal(bool(ok))))
+        return goals
+
+    def witness(self, model, ex):
+        bad = {}
+        for pr, spell in self.printed.items():
+            for Kop, names in spell.items():
+                for nm in names:
+                    built = BUILDS.get(self.table.get(nm))
+                    if not (built is not None and (Kop in built if isinstance(built, tuple) else built == Kop)):
+                        bad["%s/%s" % (pr, S.OPNAMES[Kop])] = {"printed": nm, "parser_binds": self.table.get(nm)}
+        return bad
+
 
 def variants(world, tier="quick", only=None):
-    return []
+    out = [OperatorRoundTripVariant(world)]
+    if only:
+        out = [v for v in out if any(o in v.name for o in only)]
+    return out
 
 
 def extras(prop, tier, seed):
